@@ -12,7 +12,7 @@ then checks, on what the real client did, that the Reply object a call returned
 ends up holding exactly the reply scripted for that call, that the bytes taken
 from the stream are exactly the replies owed so far, and that the LMTP
 end-of-data replies pair with the accepted recipients in order."""
-import itertools, re
+import itertools, re, random
 
 from vp.core import B, U
 from vp.fakes import ScriptSocket, segmentations
@@ -517,10 +517,15 @@ def note_failure(ctx, key, case, what):
         rank = 0 if clean else 1
     else:
         rank = 0 if ' holds (' in what else (1 if 'consequence of' in what else 2)
-    size = (rank, len(case['ops']), len(case['chunks']), len(case['script']))
+    if case.get('kind') == 'count':
+        size = (rank, len(case['ops']), 0, len(case['script']))
+        pub = count_public(case)
+    else:
+        size = (rank, len(case['ops']), len(case['chunks']), len(case['script']))
+        pub = public_case(case)
     ctx.count('oracle-failures:' + key)
     if key not in best or size < best[key][0]:
-        best[key] = (size, public_case(case), what)
+        best[key] = (size, pub, what)
 
 
 def run_cases(ctx, cases, judge=True):
@@ -643,6 +648,294 @@ def stream_targeted(ctx):
     ctx.count('targeted-cases', len(cases))
 
 
+# ------------------------------------------------------------------ the COUNT dimension
+# Pipelined groups of n recipients against a COMMAND-DRIVEN server: a reply becomes readable only
+# after the bytes of the command it answers have reached the socket (sendall); a recv() at a moment
+# when every command received so far has been answered and the answers have been read would block on
+# a real connection - the fake socket raises ReadPastOwed and the case fails with c10:overread.
+COUNTS = [1, 2, 3, 50, 98, 99, 100, 101, 128, 250, 1000]
+
+
+class ReadPastOwed(Exception):
+    pass
+
+
+class DrivenSock(object):
+    def __init__(self, groups, script, mode, rnd, banner):
+        self.groups = list(groups)        # per reply-owing event, in order: the script indexes it releases
+        self.script = script
+        self.wires = [wire_of(r) for r in script]
+        self.mode, self.rnd = mode, rnd
+        self.avail = b''
+        self.inbuf = b''
+        self.in_data = False
+        self.sends = []
+        self.chunks_out = []              # what recv() returned, in order (input of the model run)
+        self.released = 0                 # replies made readable so far
+        self.commands = 0                 # command lines / end-of-data markers received
+        self.unexpected = []
+        self.past_owed = 0
+        if banner:
+            self._release(b'[connect]')
+
+    def fileno(self):
+        return -1
+
+    def getpeername(self):
+        return ('192.0.2.1', 25)
+
+    def close(self):
+        pass
+
+    def _release(self, line):
+        if not self.groups:
+            self.unexpected.append(line)
+            return []
+        g = self.groups.pop(0)
+        for si in g:
+            self.avail += self.wires[si]
+            self.released += 1
+        return g
+
+    def sendall(self, data):
+        self.sends.append(bytes(data))
+        self.inbuf += bytes(data)
+        while b'\r\n' in self.inbuf:
+            line, self.inbuf = self.inbuf.split(b'\r\n', 1)
+            if self.in_data:
+                if line == b'.':
+                    self.in_data = False
+                    self.commands += 1
+                    self._release(line)
+                continue
+            self.commands += 1
+            g = self._release(line)
+            if line.upper() == b'DATA' and g and self.script[g[0]]['code'][0] == '3':
+                self.in_data = True
+
+    def recv(self, n=4096):
+        if not self.avail:
+            self.past_owed += 1
+            raise ReadPastOwed()
+        a = self.avail
+        if self.mode == 'whole':
+            k = len(a)
+        elif self.mode == 'bytes':
+            k = 1
+        elif self.mode == 'lines':
+            k = a.find(b'\n') + 1 or len(a)
+        else:
+            k = self.rnd.randint(1, min(len(a), 700))
+        k = min(k, n)
+        ret, self.avail = a[:k], a[k:]
+        self.chunks_out.append(ret)
+        return ret
+
+
+def count_case(seed, n, lmtp, pipelining, seg):
+    """everything about a count case is regenerated from (seed, n, lmtp, pipelining, seg)"""
+    rng = random.Random(seed)
+    ops = []
+    if rng.random() < 0.5:
+        ops.append(dict(m='banner'))
+    ops.append(dict(m='hello', verb='lhlo' if lmtp else 'ehlo', arg='client.example.com', cls=2,
+                    kw=(['PIPELINING', '8BITMIME'] if pipelining else ['8BITMIME'])))
+    ops.append(dict(m='mailfrom', addr='sender@example.com', size=None, auth=None))
+    for k in range(n):
+        ops.append(dict(m='rcptto', addr='rcpt%d@example.org' % k))
+    ops.append(dict(m='data', cls=3))
+    ops.append(dict(m='send_data', parts=[b'Subject: x\r\n\r\n', b'.body\r\n']))
+    ops.append(dict(m='rset'))
+    ops.append(dict(m='quit'))
+    script, plan = plan_case(rng, lmtp, [], ops)
+    return dict(kind='count', seed=seed, n=n, lmtp=lmtp, pipelining=pipelining, seg=seg,
+                exts0=[], ops=ops, script=script, plan=plan, sockseed=rng.randrange(1 << 30))
+
+
+def count_public(case):
+    return dict(kind='count', seed=case['seed'], n=case['n'], lmtp=case['lmtp'],
+                pipelining=case['pipelining'], seg=case['seg'])
+
+
+def state_snapshot(client, sends, registry, idx, nchunks, dead):
+    return (
+        tuple((o.command or b'', o.code or '', (o.message or '') if o.code else '', o.enhanced_status_code) for o in registry),
+        tuple(idx(o) for o in client.reply_queue),
+        client.io.send_buffer.getvalue(),
+        tuple(sends),
+        tuple(sorted(client.extensions.extensions.keys())),
+        client.io.recv_buffer,
+        nchunks,
+        tuple((a, idx(o)) for a, o in getattr(client, 'rcpttos', [])),
+        None if client.last_error is None else idx(client.last_error),
+        dead,
+    )
+
+
+def run_count(report, case, verbose=None):
+    """The conversation on the real client against the command-driven server, judged call by call
+    (linear in n: every object is checked once, when it is first seen filled).
+    -> (ok, results, final snapshot, chunks the socket handed out)"""
+    ops, plan, script = case['ops'], case['plan'], case['script']
+    registry = []
+    ids = {}
+
+    class RecReply(Reply):
+        def __init__(self, *a, **k):
+            Reply.__init__(self, *a, **k)
+            ids[id(self)] = len(registry)
+            registry.append(self)
+
+    def idx(o):
+        return ids.get(id(o), 9999)
+
+    groups = [p['replies'] for p in plan if p['expect'] in ('reply', 'pairs')]
+    banner = bool(ops and ops[0]['m'] == 'banner')
+    sock = DrivenSock(groups, script, case['seg'], random.Random(case['sockseed']), banner)
+    wlen = [0]
+    for w in sock.wires:
+        wlen.append(wlen[-1] + len(w))
+    order = []          # (object, script index, kind, call index) in the order the server owes them
+    nfilled = 0
+    results = []
+    ok = True
+
+    def fail(key, i, what):
+        report(key, case, 'n=%d %s PIPELINING=%s, call %d (%s): %s' % (
+            case['n'], 'LMTP' if case['lmtp'] else 'SMTP', case['pipelining'], i, ops[i]['m'], what))
+        return False
+
+    saved = CM.Reply
+    CM.Reply = RecReply
+    try:
+        client = (LmtpClient if case['lmtp'] else Client)(sock, ('192.0.2.1', 25))
+        for i, op in enumerate(ops):
+            p = plan[i]
+            try:
+                res = call_op(client, op)
+            except ReadPastOwed:
+                results.append((2, 9))
+                ok = fail('c10:overread', i,
+                          'the client called recv() while it was owed nothing: %d commands have reached the server, all %d '
+                          'replies to them were released and %d read; this call\'s own command is not on the wire (reply_queue holds '
+                          '%d more slot(s), %d bytes wait in the send buffer) - on a real connection this read blocks' % (
+                              sock.commands, sock.released, nfilled_now(order, nfilled), len(client.reply_queue),
+                              len(client.io.send_buffer.getvalue())))
+                break
+            except Exception as e:
+                results.append((2, 8))
+                ok = fail('c10:outcome', i, 'raised %s: %s' % (type(e).__name__, e))
+                break
+            if p['expect'] == 'pairs':
+                if not isinstance(res, list):
+                    ok = fail('c10:lmtp-outcome', i, 'expected [(address, Reply)...], got %r' % (res,)); break
+                results.append((1, tuple((a, idx(o)) for a, o in res)))
+                if [a for a, _ in res] != p['accepted']:
+                    ok = fail('c10:lmtp-pairing', i, 'end-of-data replies for %d recipients %r..., accepted were %d %r...' % (
+                        len(res), [a for a, _ in res][:3], len(p['accepted']), p['accepted'][:3])); break
+                for (a, o), si in zip(res, p['replies']):
+                    order.append((o, si, 'plain', i))
+            else:
+                if isinstance(res, list) or res is None:
+                    ok = fail('c10:outcome', i, 'expected a Reply, got %r' % (res,)); break
+                results.append((0, idx(res)))
+                if res.command != expected_command(op, case['lmtp']):
+                    ok = fail('c10:command', i, 'Reply.command %r' % (res.command,)); break
+                order.append((res, p['replies'][0], p['kind'], i))
+            # newly filled objects: each must hold its own reply; filled ones form a prefix
+            while nfilled < len(order) and order[nfilled][0].code is not None:
+                o, si, kind, ci = order[nfilled]
+                want = ref_message(kind, script[si])
+                if o.code != script[si]['code'] or o.message != want or TOKEN.findall(o.message or '') != own_tokens(kind, script[si]):
+                    ok = fail('c10:mispaired', i, 'Reply of call %d (%s) holds (%r, %r); the server answered that call with (%r, %r)' % (
+                        ci, ops[ci]['m'], o.code, o.message, script[si]['code'], want))
+                    break
+                nfilled += 1
+            if not ok:
+                break
+            if nfilled < len(order) and order[-1][0].code is not None:
+                ok = fail('c10:order', i, 'the newest reply is filled while reply %d is not' % nfilled); break
+            if p['must_fill'] and nfilled != len(order):
+                ok = fail('c10:not-filled', i, '%d of %d replies filled after a flushing call' % (nfilled, len(order))); break
+            # bytes: released and not yet parsed = replies nfilled..released-1, nothing else
+            unread = len(client.io.recv_buffer) + len(sock.avail)
+            if unread != wlen[sock.released] - wlen[nfilled]:
+                ok = fail('c10:overread', i, '%d unread bytes, expected %d (replies released %d, read %d)' % (
+                    unread, wlen[sock.released] - wlen[nfilled], sock.released, nfilled)); break
+            if len(client.reply_queue) != len(order) - nfilled:
+                ok = fail('c10:orphan-slot', i, 'reply_queue holds %d objects, %d replies are owed' % (
+                    len(client.reply_queue), len(order) - nfilled)); break
+            if verbose and (i < 4 or i >= len(ops) - 5 or not ok):
+                verbose('call %d %-16s -> %s | replies filled %d/%d, released by server %d, queue %d' % (
+                    i, op['m'] + (' ' + op.get('addr', '') if op['m'] == 'rcptto' else ''),
+                    results[-1], nfilled, len(order), sock.released, len(client.reply_queue)))
+        if ok:
+            if sock.unexpected or sock.groups or sock.avail or client.io.recv_buffer:
+                ok = fail('c10:overread', len(ops) - 1, 'conversation over: %d unexpected command lines %r, %d reply groups never '
+                          'triggered, %d bytes unread' % (len(sock.unexpected), sock.unexpected[:2], len(sock.groups),
+                                                          len(sock.avail) + len(client.io.recv_buffer)))
+            elif nfilled != len(order):
+                ok = fail('c10:not-filled', len(ops) - 1, '%d of %d replies filled at the end' % (nfilled, len(order)))
+        snap = state_snapshot(client, sock.sends, registry, idx, 0, 0)
+        return ok, tuple(results), snap, list(sock.chunks_out)
+    finally:
+        CM.Reply = saved
+
+
+def nfilled_now(order, nfilled):
+    while nfilled < len(order) and order[nfilled][0].code is not None:
+        nfilled += 1
+    return nfilled
+
+
+def model_final(out):
+    res, st = out
+    rs = []
+    for r in res:
+        if r[0] == 0:
+            rs.append((0, r[1]))
+        elif r[0] == 1:
+            rs.append((1, tuple((U(a), i) for a, i in r[1])))
+        else:
+            rs.append((2, r[1]))
+    return tuple(rs), model_trace([((2, 0), st)])[0][1]
+
+
+def stream_count(ctx):
+    rng = ctx.rng
+    segs = ['whole', 'lines', 'random']
+    reps = 1 if ctx.quick else 3
+    cases = []
+    k = 0
+    for n in COUNTS:
+        for lmtp in (False, True):
+            for pipelining in (True, False):
+                for _ in range(reps):
+                    seg = segs[k % 3] if (n > 128 or k % 5) else 'bytes'
+                    k += 1
+                    cases.append(count_case(rng.randrange(1 << 31), n, lmtp, pipelining, seg))
+    good = []
+    for case in cases:
+        ok, results, snap, chunks = run_count(lambda key, c, what: note_failure(ctx, key, c, what), case)
+        ctx.evaluated(('count', case['n'], case['lmtp'], case['pipelining'], case['seg'], case['seed']), nontrivial=True)
+        ctx.count('count:n=%d' % case['n'])
+        ctx.count('count-seg:%s' % case['seg'])
+        if ok:
+            good.append((case, results, snap, chunks))
+    # correspondence: the model on the chunks the socket handed out must end in the same state
+    # (and must have needed exactly those chunks: none left, same recv_buffer)
+    outs = ctx.model.batch('c10_final', [[1 if c['lmtp'] else 0, [], ch, [enc_op(o) for o in c['ops']]] for c, _, _, ch in good])
+    for (case, results, snap, chunks), out in zip(good, outs):
+        mres, msnap = model_final(out)
+        if (results, snap) != (mres, msnap):
+            diff = [j for j in range(len(snap)) if snap[j] != msnap[j]]
+            ctx.mismatch('count-final', count_public(case),
+                         dict(results_equal=(results == mres), fields_differing=diff, impl=[repr(snap[j])[:300] for j in diff]),
+                         dict(model=[repr(msnap[j])[:300] for j in diff]))
+    ctx.sample(dict(kind='count', counts=COUNTS, example=count_public(cases[-1])), cap=5)
+    ctx.count('count-cases', len(cases))
+
+
 MALFORMED = [b'600 bad code\r\n', b'25x nope\r\n', b'250-a\r\n550 b\r\n', b'\r\n', b'250 \xff\r\n', b'250-unfinished\r\n',
              b'250 ok', b'', b'099 low\r\n', b'250-a\r\n\r\n250 b\r\n']
 
@@ -700,7 +993,11 @@ def run(ctx):
         'get_banner; per case random reply code class (2/3/4/5, rarely 1), 1-3 lines (EHLO: 1-4 with extension keywords that switch '
         'PIPELINING/SMTPUTF8/SIZE/AUTH), ESC-looking prefixes, ASCII / non-ASCII / surrogate addresses, pipelined extra bytes after '
         'the last owed reply, segmentation whole/per line/per byte/random; longer sequences sampled; targeted: the D21/D22 call '
-        'patterns over all small choices; malformed (correspondence only): a bad reply / truncation inserted at a random point. '
+        'patterns over all small choices; count: EHLO/LHLO, MAIL, RCPT x n, DATA, content, RSET, QUIT for n in '
+        '{1,2,3,50,98,99,100,101,128,250,1000} x {Client, LmtpClient} x {PIPELINING on, off} against a command-driven server '
+        '(a reply is readable only once its command has reached the socket; recv() while owed nothing = c10:overread), random '
+        'reply classes/lines, segmentation whole/per line/per byte/random, final state compared with the model run on the chunks '
+        'handed out; malformed (correspondence only): a bad reply / truncation inserted at a random point. '
         'Compared after every call: every Reply object created so far (command, code, message, enhanced status code), reply_queue, '
         'send buffer, sendall() payloads, extension names, recv_buffer, chunks left, LMTP rcpttos, last_error. '
         'Non-trivial = at least one deferred (pipelined) reply, multi-line reply, encode failure or LMTP end-of-data reply.')
@@ -708,6 +1005,7 @@ def run(ctx):
                                  '(C17 judges it); the token check is independent of it']
     stream_parse_string(ctx, 400 if ctx.quick else 5000)
     stream_targeted(ctx)
+    stream_count(ctx)
     if ctx.quick:
         stream_exhaustive(ctx, 3, 4, (5, 6), 1500)
     else:
@@ -729,8 +1027,28 @@ def _unjson(x):
     return x
 
 
+def replay_count(ctx, c):
+    case = count_case(c['seed'], c['n'], c['lmtp'], c['pipelining'], c['seg'])
+    print('count case: %s, PIPELINING %s, %d recipients, segmentation %s, seed %d (%d calls, %d scripted replies)' % (
+        'LmtpClient' if case['lmtp'] else 'Client', 'on' if case['pipelining'] else 'off', case['n'], case['seg'],
+        case['seed'], len(case['ops']), len(case['script'])))
+    failed = []
+
+    def report(key, cs, what):
+        failed.append(key)
+        print('ORACLE   : %s: %s' % (key, what))
+    ok, results, snap, chunks = run_count(report, case, verbose=lambda s: print('  ' + s))
+    if ok and ctx.model:
+        mres, msnap = model_final(ctx.model.call('c10_final', [1 if case['lmtp'] else 0, [], chunks, [enc_op(o) for o in case['ops']]]))
+        print('model    : final state %s' % ('equal' if (results, snap) == (mres, msnap) else 'DIFFERS'))
+    print('oracle   :', 'holds' if ok else 'FAILS')
+    return 0 if ok else 1
+
+
 def replay(ctx, case):
     c = _unjson(case.get('case', case))
+    if c.get('kind') == 'count':
+        return replay_count(ctx, c)
     print('client   :', 'LmtpClient' if c['lmtp'] else 'Client', 'extensions pre-set:', c['exts0'])
     print('server   :', [(r['code'], r['lines']) for r in c['script']], '+ extra', c['extra'])
     print('chunks   :', c['chunks'])
